@@ -151,7 +151,8 @@ func (wd *world) probe(t vlib.TB, i int, hist func() string) {
 	probeCounter++
 	sev := probeSevs[probeCounter%len(probeSevs)]
 	args := probeArgs[probeCounter%len(probeArgs)]
-	wd.loggers[i].LogAttrs(context.Background(), sev, "format probe", args...)
+	msg := []string{"format probe", "format probe\nwith a second line\nand a third", "format probe", "format probe\n"}[probeCounter%4]
+	wd.loggers[i].LogAttrs(context.Background(), sev, msg, args...)
 	evs := wd.log.Snapshot()[before:]
 	if len(evs) != 1 {
 		t.Fatalf("C11 harness: expected one record, got %d", len(evs))
